@@ -52,6 +52,7 @@ def run(ctx):
                     raise vlib.Inconclusive("vacuity check: %s is not violated by the faulty specification (%s)" % (inv, what))
             if not q:
                 ctx.tlc("NtsPacketMC", "NtsPacket_phcookie.cfg", timeout=600, workers=4)
+                ctx.tlc("NtsPacketMC", "NtsPacket_unhardened.cfg", timeout=600, workers=4)
         except Exception as e:          # re-raised in the main thread
             design["err"] = e
 
@@ -166,8 +167,8 @@ def _pipeline(ctx, q):
     unj = collections.Counter((x["region"], x["out"]) for x in recs if x["kind"] in ("flip", "append") and x["region"] not in JUDGED
                               and x["role"] != "cookie")
     ctx.notes.append("outcomes: %s; %s" % (dict(cnt), stats))
-    ctx.notes.append("panic/hang outcomes are C08's subject (decoder robustness); here they count as 'not accepted'. "
-                     "Inputs on which nts.DecodePacket loops forever (extension field Length 0) are pre-filtered, not executed.")
+    ctx.notes.append("panic/hang outcomes (none on the hardened decoders) are C08's subject; here they count as 'not accepted'. "
+                     "Nothing is pre-filtered unless the start-up probe shows that this build's DecodePacket loops on Length 0.")
     ctx.notes.append("unjudged regions (predicted, not judged): %s" % {"%s:%s" % k: v for k, v in sorted(unj.items())})
     ctx.notes.append("noncePad / ctPad are empty in every packet the encoder can produce (nonce 16 B, ciphertext 16+4k B)")
     distinct = len({(x["role"], x["nf"], x["kind"], x["region"], x["fi"], x["sub"], x["off"], x["bit"], x["val"], x["pk"])
